@@ -3,13 +3,13 @@ import itertools
 ID = "C16"
 LEAN_TARGETS = ["Rsp.Props.C16"]
 THEOREMS = ["Rsp.Props.C16.server_framing_depends_only_on_stream", "Rsp.Props.C16.segmentation_independent", "Rsp.Props.C16.readN_blocking",
-            "Rsp.Props.C16.radGet_blocking", "Rsp.Props.C16.pollScript_blocking", "Rsp.Props.C16.framesOut_step"]
+            "Rsp.Props.C16.radGet_blocking", "Rsp.Props.C16.pollScript_blocking", "Rsp.Props.C16.framesOut_step", "Rsp.Props.C16.checkedRadLength_pos_iff"]
 RULE = ("the real radtcpget/tcpreadtimeout on a socketpair whose peer is scripted from inside poll(): streams of 1..4 packets of lengths 20..4096 (boundary lengths 20,21,4095,4096), "
         "EVERY split point of short streams (exhaustive two-way partitions), random partitions of long ones incl. 1-octet writes and splits inside the 4-octet header, stalls longer "
         "than the reader's timeout at every position, end of stream at every offset, length fields 0..19 and 4097..65535; server-side loop (no timeout) and client-side loop "
         "(timeouts reported, reading goes on). non-trivial = the stream is cut inside a packet or carries an invalid length")
-EXHAUSTIVE = {"quick": ["every two-way split and every truncation point of a 2-packet stream (20+23 octets), with and without a stall at the split"],
-              "thorough": ["every two-way split and every truncation point of 2- and 3-packet streams, with and without a stall at the split"]}
+EXHAUSTIVE = {"quick": ["get_checked_rad_length on all 65536 length-field values", "every two-way split and every truncation point of a 2-packet stream (20+23 octets), with and without a stall at the split"],
+              "thorough": ["get_checked_rad_length on all 65536 length-field values", "every two-way split and every truncation point of 2- and 3-packet streams, with and without a stall at the split"]}
 ASSUMPTIONS = ["TLS (radtlsget/sslreadtimeout) has the same structure over SSL_read and received the same repair; it is not executed by the harness",
                "one read() returns what one write() delivered or a prefix of it (the scripted peer writes only when the socket buffer is empty)"]
 LEVEL_TEXT = ("Lean 4 theorems for the no-timeout reader (tcpserverrd): whatever the partition of the octets into writes and whatever silences lie between them, the sequence of packets "
@@ -47,6 +47,9 @@ def gen(rng, tier):
             cs.append(Case(script_line("server", 0, w(a) + ["e"]), kind="truncate", cut=1))
             cs.append(Case(script_line("client", 7, w(a) + ["e"]), kind="truncate", cut=1))
             cs.append(Case(script_line("client", 7, w(a) + ["t", "t"]), kind="truncate-stall", cut=1))
+    # the length check itself, on every value of the 16-bit field
+    for L in range(65536):
+        cs.append(Case("radlen %02x%02x%02x%02x" % (rng.randrange(256), rng.randrange(256), L >> 8, L & 255), kind="radlen", cut=int(L < 20 or L > 4096)))
     # random partitions of longer streams
     for _ in range(600 if tier == "quick" else 20000):
         n = rng.randrange(1, 5)
